@@ -911,9 +911,29 @@ class SchedulingSolver(BaseModelWithJson):
         """export the model to a smt file to be processed by another SMT solver"""
         if not self._initialized:
             self.initialize()
+        # in debug mode each assertion is tracked, i.e. stored as "tracking literal =>
+        # assertion", and the literals are only assumed when the solver checks: the
+        # exported text has to state them, otherwise it denotes a weaker system
+        tracking_literals = [
+            asst.arg(0)
+            for asst in (self._solver.assertions() if self.debug else [])
+            if z3.is_implies(asst) and asst.arg(0).decl().name().startswith("asst_")
+        ]
         # z3.Optimize has no to_smt2() method, its SMT-LIB2 text is given by sexpr()
         if hasattr(self._solver, "to_smt2"):
-            smt2_content = self._solver.to_smt2()
+            solver_to_export = self._solver
+            if tracking_literals:
+                solver_to_export = z3.Solver()
+                solver_to_export.add(self._solver.assertions())
+                solver_to_export.add(tracking_literals)
+            smt2_content = solver_to_export.to_smt2()
+        elif tracking_literals:
+            self._solver.push()
+            try:
+                self._solver.add(tracking_literals)
+                smt2_content = self._solver.sexpr()
+            finally:
+                self._solver.pop()
         else:
             smt2_content = self._solver.sexpr()
         with open(smt_filename, "w", encoding="utf-8") as outfile:
